@@ -10,11 +10,12 @@ and must print the model's observation byte for byte).  They quantify over
   * every requested form (`New`, `func() Plugin`, `func() (Plugin, error)`),
   * every world: default values, user settings, fillConf given or not, and ANY fault plan (`Nat → Bool` per kind of
     user code),
-  * every number k of calls (induction on k in Proofs/C18: `iter_inv`, `iter_keys`, `iter_frame`, `iter_views`).
+  * every number k of calls (induction on k in Proofs/C18: `iter_inv`, `iter_keys`, `iter_frame`, `iter_views`; a run is taken apart by
+    `run_cases` in Proofs/C18Run).
 The statements are the executable Spec predicates of Spec/C18 (the very functions the driver evaluates on the real
 registry's observations) plus, for the configuration, the unbounded ∀-fields form.
 -/
-import Pandora.Proofs.C18
+import Pandora.Proofs.C18Run
 
 namespace Pandora.Props.C18
 open Pandora.Model.C18 Pandora.Spec.C18 Pandora.Proofs.C18
@@ -27,16 +28,6 @@ theorem C18_register (inp : Input) : (run inp).isSome = registerOk inp.sh := by
   · cases hf : inp.form <;> simp
     all_goals split <;> simp
 
-private theorem steps_of_run {inp : Input} {obs : Obs} (h : run inp = some obs) :
-    ∃ st, runSt inp = some (st, obs.steps) ∧ obs.views = viewsOf st.heap obs.steps := by
-  unfold run at h
-  cases hr : runSt inp with
-  | none => simp [hr] at h
-  | some r =>
-    simp only [hr, Option.map_some, Option.some.injEq] at h
-    subst h
-    exact ⟨r.1, rfl, rfl⟩
-
 /-- **config**: every component handed out — by `New`, by a factory of either type, made from a component
 constructor or from a factory constructor, whatever failed before — was built from the registered defaults
 overlaid by the user's settings (every field except the `Mark` field the components themselves write), and from
@@ -45,8 +36,7 @@ theorem C18_config (inp : Input) (obs : Obs) (h : run inp = some obs) :
     ∀ p ∈ products obs.steps,
       (inp.sh.cfg = .none → p.seen = []) ∧
       (inp.sh.cfg ≠ .none → ∀ f, f ≠ markField → p.seen.get f = (expected inp.sh inp.w).get f) := by
-  obtain ⟨st, hst, _⟩ := steps_of_run h
-  obtain ⟨sh, form, w, k⟩ := inp
+  obtain ⟨_, hcase⟩ := run_cases h
   intro p hp
   simp only [products, List.mem_filterMap] at hp
   obtain ⟨s, hs, hsp⟩ := hp
@@ -55,41 +45,21 @@ theorem C18_config (inp : Input) (obs : Obs) (h : run inp = some obs) :
     split at hsp
     · simp only [Option.some.injEq] at hsp; subst hsp; assumption
     · simp at hsp
-  suffices hh : SeenOk sh w p.seen from hh
-  unfold runSt at hst
-  by_cases hr : registerOk sh = true
-  · simp only [hr, Bool.not_true, Bool.false_eq_true, if_false] at hst
-    have hfac : ∀ n, (n = 1 ∨ n = 2) →
-        (match (regNewFactory sh w n (initSt sh w)).2 with
-          | .error e => some ((regNewFactory sh w n (initSt sh w)).1,
-              [(⟨(regNewFactory sh w n (initSt sh w)).1.log.reverse, .err e⟩ : Step)])
-          | .ok fac => some ((iter (step (callFac sh w fac)) k (regNewFactory sh w n (initSt sh w)).1).1,
-              ⟨(regNewFactory sh w n (initSt sh w)).1.log.reverse, .made⟩ ::
-                (iter (step (callFac sh w fac)) k (regNewFactory sh w n (initSt sh w)).1).2)) = some (st, obs.steps) →
-        SeenOk sh w p.seen := by
-      intro n hn hst
-      cases hc : (regNewFactory sh w n (initSt sh w)).2 with
-      | error e =>
-        simp only [hc, Option.some.injEq, Prod.mk.injEq] at hst
-        rw [← hst.2] at hs
-        simp only [List.mem_singleton] at hs
-        subst hs
-        simp at hres
-      | ok fac =>
-        simp only [hc, Option.some.injEq, Prod.mk.injEq] at hst
-        rw [← hst.2] at hs
-        simp only [List.mem_cons] at hs
-        rcases hs with rfl | hs
-        · simp at hres
-        · exact config_factory sh w n k hn (initSt sh w) (initSt_log sh w) (initSt_shared sh w) fac hc s hs p hres
-    cases form with
-    | component =>
-      simp only [Option.some.injEq, Prod.mk.injEq] at hst
-      rw [← hst.2] at hs
-      exact config_component sh w k s hs p hres
-    | facNoErr => exact hfac 1 (.inl rfl) hst
-    | facErr => exact hfac 2 (.inr rfl) hst
-  · simp [hr] at hst
+  suffices hh : SeenOk inp.sh inp.w p.seen from hh
+  rcases hcase with ⟨_, hsteps, _⟩ | ⟨_, hn, _, hcr⟩
+  · rw [hsteps] at hs
+    exact config_component inp.sh inp.w inp.k s hs p hres
+  · rcases hcr with ⟨e, _, hsteps⟩ | ⟨fac, hfac, hsteps, _⟩
+    · rw [hsteps] at hs
+      simp only [List.mem_singleton] at hs
+      subst hs
+      simp at hres
+    · rw [hsteps] at hs
+      simp only [List.mem_cons] at hs
+      rcases hs with rfl | hs
+      · simp at hres
+      · exact config_factory inp.sh inp.w inp.form.numOut inp.k hn (initSt inp.sh inp.w) (initSt_log _ _)
+          (initSt_shared _ _) fac hfac s hs p hres
 
 /-- the executable form of `C18_config` the driver evaluates (any list of fields) -/
 theorem C18_config_spec (inp : Input) (obs : Obs) (fields : List Nat) (h : run inp = some obs) :
@@ -112,48 +82,305 @@ its error is the operation's result — the error result of `New`, of `NewFactor
 `func() Plugin` and the failure happens in a factory call; an operation without a failing invocation succeeds;
 a successful `NewFactory` is followed by exactly k results. -/
 theorem C18_errors (inp : Input) (obs : Obs) (h : run inp = some obs) : errorsOk inp obs = true := by
-  obtain ⟨sh, form, w, k⟩ := inp
-  unfold run runSt at h
-  by_cases hr : registerOk sh = true
-  · simp only [hr, Bool.not_true, Bool.false_eq_true, if_false] at h
-    have hfac : ∀ n, (n = 1 ∨ n = 2) → ∀ form, form ≠ .component → (form == Form.facNoErr) = (n == 1) →
-        Option.map (fun r : St × List Step => (⟨r.2, viewsOf r.1.heap r.2⟩ : Obs))
-          (match (regNewFactory sh w n (initSt sh w)).2 with
-          | .error e => some ((regNewFactory sh w n (initSt sh w)).1,
-              [(⟨(regNewFactory sh w n (initSt sh w)).1.log.reverse, .err e⟩ : Step)])
-          | .ok fac => some ((iter (step (callFac sh w fac)) k (regNewFactory sh w n (initSt sh w)).1).1,
-              ⟨(regNewFactory sh w n (initSt sh w)).1.log.reverse, .made⟩ ::
-                (iter (step (callFac sh w fac)) k (regNewFactory sh w n (initSt sh w)).1).2)) = some obs →
-        errorsOk ⟨sh, form, w, k⟩ obs = true := by
-      intro n hn form hform hpan h
-      have hf := errors_factory sh w n k hn (initSt sh w) (initSt_log sh w)
-      cases hc : (regNewFactory sh w n (initSt sh w)).2 with
-      | error e =>
-        rw [hc] at hf
-        simp only [hc, Option.map_some, Option.some.injEq] at h
-        subst h
-        cases form <;> simp_all [errorsOk, isMade, isErr]
-      | ok fac =>
-        rw [hc] at hf
-        obtain ⟨h1, h2, h3⟩ := hf
-        simp only [hc, Option.map_some, Option.some.injEq] at h
-        subst h
-        cases form
-        · exact absurd rfl hform
-        all_goals
-          simp only [errorsOk, h1, isMade, h2, beq_self_eq_true, Bool.true_and, Bool.true_or, if_true,
-            List.all_eq_true, Bool.and_eq_true, Bool.not_eq_true', hpan]
-          intro s hs
-          exact h3 s hs
-    cases form with
-    | component =>
-      simp only [Option.map_some, Option.some.injEq] at h
-      subst h
-      obtain ⟨h1, h2⟩ := errors_component sh w k (initSt sh w)
-      simp only [errorsOk, h1, beq_self_eq_true, Bool.true_and, List.all_eq_true, Bool.and_eq_true, Bool.not_eq_true']
-      exact h2
-    | facNoErr => exact hfac 1 (.inl rfl) .facNoErr (by simp) rfl h
-    | facErr => exact hfac 2 (.inr rfl) .facErr (by simp) rfl h
-  · simp [hr] at h
+  obtain ⟨_, hcase⟩ := run_cases h
+  rcases hcase with ⟨hf, hsteps, _⟩ | ⟨hf, hn, hpan, hcr⟩
+  · obtain ⟨h1, h2⟩ := errors_component inp.sh inp.w inp.k (initSt inp.sh inp.w)
+    simp only [errorsOk, hf, hsteps, h1, beq_self_eq_true, Bool.true_and, List.all_eq_true, Bool.and_eq_true,
+      Bool.not_eq_true']
+    exact h2
+  · have he := errors_factory inp.sh inp.w inp.form.numOut inp.k hn (initSt inp.sh inp.w) (initSt_log _ _)
+    have hshape : ∀ c calls, obs.steps = c :: calls →
+        stepErrOk false c = true → (isMade c || isErr c) = true →
+        (if isMade c = true then (calls.length == inp.k) = true else calls.isEmpty = true) →
+        (∀ s ∈ calls, stepErrOk (inp.form == .facNoErr) s = true ∧ isMade s = false) →
+        errorsOk inp obs = true := by
+      intro c calls hst a1 a2 a3 a4
+      cases hform : inp.form with
+      | component => exact absurd hform hf
+      | facNoErr | facErr =>
+        rw [hform] at a4
+        simp only [errorsOk, hform, hst, a1, a2, Bool.true_and, Bool.and_eq_true, List.all_eq_true,
+          Bool.not_eq_true']
+        refine ⟨?_, a4⟩
+        split <;> simp_all
+    rcases hcr with ⟨e, hce, hsteps⟩ | ⟨fac, hfac, hsteps, _⟩
+    · rw [hce] at he
+      refine hshape _ _ hsteps he (by simp [isMade, isErr]) (by simp [isMade]) (by simp)
+    · rw [hfac] at he
+      obtain ⟨e1, e2, e3⟩ := he
+      refine hshape _ _ hsteps e1 (by simp [isMade]) (by simp [isMade, e2]) ?_
+      rw [hpan]
+      exact e3
+
+/-- **fresh**: when the requested form must configure per product — `New`, or a factory (of either type) made from
+a component constructor — every single call invokes the default-config function once (if one is registered),
+fillConf once on the new configuration and, unless fillConf failed, the constructor once on that very
+configuration (and a factory constructor's factory once); over the k calls the configurations handed to fillConf
+are pairwise distinct, so are those handed to the constructors and those held by the products, and at the very
+end every product still reads its own serial number through its configuration pointer: no two products share
+configuration state.  `NewFactory` itself invokes no user code.  (Excluded, by `freshApplies`: a default-config
+function that itself returns one shared pointer — see the last example below.) -/
+theorem C18_fresh (inp : Input) (obs : Obs) (h : run inp = some obs) (ha : freshApplies inp = true) :
+    freshOk inp obs = true :=
+  fresh_run h ha
+
+/-- sum over the calls of the number of user-code invocations of one kind -/
+def total (p : Ev → Bool) (calls : List Step) : Nat := (calls.map fun s => s.evs.countP p).sum
+
+/-- `C18_fresh` in numbers: a factory made from a component constructor that takes a configuration, called k
+times, made k configurations (k default-config calls), filled k of them — k pairwise distinct ones —, and called the
+constructor once per call whose fillConf did not fail, each time on another configuration; the products
+hold pairwise distinct configurations. -/
+theorem C18_fresh_counts (inp : Input) (obs : Obs) (h : run inp = some obs) (ha : freshApplies inp = true)
+    (hfa : inp.sh.factory = false) :
+    (callsOf inp obs).length = inp.k ∧
+    total isDflt (callsOf inp obs) = (if inp.sh.dflt = .absent then 0 else inp.k) ∧
+    total isFill (callsOf inp obs) = (if inp.w.hasFill then inp.k else 0) ∧
+    ((callsOf inp obs).filterMap fillAddr?).length = (if inp.w.hasFill then inp.k else 0) ∧
+    ((callsOf inp obs).filterMap fillAddr?).Nodup ∧
+    total isCtor (callsOf inp obs) + (callsOf inp obs).countP fillFailed = inp.k ∧
+    total isFact (callsOf inp obs) = 0 ∧
+    ((callsOf inp obs).filterMap ctorConf?).Nodup ∧
+    ((callsOf inp obs).filterMap prodCell?).Nodup := by
+  have hfresh := fresh_run h ha
+  have hlen : (callsOf inp obs).length = inp.k := by
+    obtain ⟨_, hcase⟩ := run_cases h
+    rcases hcase with ⟨hf, hsteps, _⟩ | ⟨hf, hn, _, hcr⟩
+    · simp [callsOf, hf, hsteps, iter_length]
+    · simp only [freshApplies, Bool.and_eq_true, bne_iff_ne, ne_eq] at ha
+      have hc := ha.1.1
+      obtain ⟨_, _, _, q4⟩ := quad_proj (create_eq inp.sh inp.w inp.form.numOut (initSt inp.sh inp.w) (initSt_log _ _))
+      have : (createSpec inp.sh inp.w inp.form.numOut (initSt inp.sh inp.w)).2.2.2 = .ok (.wrapPlugin inp.form.numOut) := by
+        simp [createSpec, hfa, hc]
+      rw [this] at q4
+      rcases hcr with ⟨e, he, _⟩ | ⟨fac, _, hsteps, _⟩
+      · rw [q4] at he; simp at he
+      · cases hform : inp.form with
+        | component => exact absurd hform hf
+        | facNoErr | facErr => simp [callsOf, hform, hsteps, iter_length]
+  simp only [freshOk, Bool.and_eq_true, List.all_eq_true, nodup, decide_eq_true_eq] at hfresh
+  obtain ⟨⟨⟨⟨⟨⟨_, hcall⟩, n1⟩, n2⟩, n3⟩, _⟩, _⟩ := hfresh
+  -- per-call counts, summed
+  have hsum : ∀ (p : Ev → Bool) (c : Nat), (∀ s ∈ callsOf inp obs, s.evs.countP p = c) →
+      total p (callsOf inp obs) = (callsOf inp obs).length * c := by
+    intro p c
+    unfold total
+    generalize callsOf inp obs = l
+    intro hl
+    induction l with
+    | nil => simp
+    | cons a l ih =>
+      simp only [List.map_cons, List.sum_cons, List.length_cons, hl a (by simp)]
+      rw [ih (fun s hs => hl s (by simp [hs])), Nat.add_mul]; omega
+  have hper : ∀ s ∈ callsOf inp obs,
+      s.evs.countP isDflt = (if inp.sh.dflt = .absent then 0 else 1) ∧
+      s.evs.countP isFill = (if inp.w.hasFill then 1 else 0) ∧
+      (inp.w.hasFill = true → (fillAddr? s).isSome = true) ∧
+      s.evs.countP isCtor = (if fillFailed s then 0 else 1) ∧
+      s.evs.countP isFact = 0 := by
+    intro s hs
+    have := hcall s hs
+    simp only [freshCallOk, hfa, Bool.false_and, Bool.false_eq_true, if_false, Bool.and_eq_true, beq_iff_eq,
+      Bool.or_eq_true, Bool.not_eq_true'] at this
+    obtain ⟨⟨⟨⟨⟨⟨a1, a2⟩, a3⟩, a4⟩, a5⟩, _⟩, _⟩ := this
+    refine ⟨a1, a2, ?_, a4, a5⟩
+    intro hfill
+    rcases a3 with a3 | a3
+    · rw [hfill] at a3; exact absurd a3 (by simp)
+    · exact a3
+  refine ⟨hlen, ?_, ?_, ?_, n1, ?_, ?_, n2, n3⟩
+  · rw [hsum isDflt _ (fun s hs => (hper s hs).1), hlen]; split <;> simp
+  · rw [hsum isFill _ (fun s hs => (hper s hs).2.1), hlen]; split <;> simp
+  · rw [← hlen]
+    generalize callsOf inp obs = l at hper
+    induction l with
+    | nil => simp
+    | cons a l ih =>
+      have ha' := hper a (by simp)
+      have ih' := ih (fun s hs => hper s (by simp [hs]))
+      by_cases hfill : inp.w.hasFill = true
+      · obtain ⟨c, hc⟩ := Option.isSome_iff_exists.mp (ha'.2.2.1 hfill)
+        simp only [hfill, if_true] at ih' ⊢
+        simp [hc, ih']
+      · simp only [hfill, Bool.false_eq_true, if_false] at ih' ha' ⊢
+        have : fillAddr? a = none := by
+          have h0 := ha'.2.1
+          unfold fillAddr?
+          rw [List.findSome?_eq_none_iff]
+          intro e he
+          cases e with
+          | fill i ad ok =>
+            have : 0 < a.evs.countP isFill := List.countP_pos_iff.mpr ⟨_, he, rfl⟩
+            omega
+          | _ => rfl
+        simp only [List.filterMap_cons, this]
+        exact ih'
+  · rw [← hlen]
+    unfold total
+    generalize callsOf inp obs = l at hper
+    induction l with
+    | nil => simp
+    | cons a l ih =>
+      have ha' := (hper a (by simp)).2.2.2.1
+      have ih' := ih (fun s hs => hper s (by simp [hs]))
+      simp only [List.map_cons, List.sum_cons, List.countP_cons, List.length_cons, ha']
+      cases hff : fillFailed a <;> simp <;> omega
+  · rw [hsum isFact 0 (fun s hs => (hper s hs).2.2.2.2)]; simp
+
+/-- **once**: a factory (of either type) made from a factory constructor — creation invokes the default-config
+function once (if one is registered and the constructor takes a configuration), fillConf once (if given) and, unless
+fillConf failed, the registered factory constructor once, and does not invoke the factory it returns; every later
+call invokes exactly one piece of user code: the registered factory. -/
+theorem C18_once (inp : Input) (obs : Obs) (h : run inp = some obs) (ha : onceApplies inp = true) :
+    onceOk inp obs = true :=
+  once_run h ha
+
+/-- `C18_once` in numbers: after a successful `NewFactory` the k calls contain no default-config, fillConf or
+constructor invocation at all and exactly k invocations of the registered factory. -/
+theorem C18_once_counts (inp : Input) (obs : Obs) (h : run inp = some obs) (ha : onceApplies inp = true)
+    (c : Step) (calls : List Step) (hsteps : obs.steps = c :: calls) (hmade : c.res = .made) :
+    calls.length = inp.k ∧
+    c.evs.countP isFill = (if inp.w.hasFill then 1 else 0) ∧ c.evs.countP isCtor = 1 ∧ c.evs.countP isFact = 0 ∧
+    total isDflt calls = 0 ∧ total isFill calls = 0 ∧ total isCtor calls = 0 ∧ total isFact calls = inp.k := by
+  have honce := once_run h ha
+  have herr := C18_errors inp obs h
+  simp only [onceApplies, Bool.and_eq_true, bne_iff_ne, ne_eq] at ha
+  have hlen : calls.length = inp.k := by
+    cases hform : inp.form with
+    | component => exact absurd hform ha.2
+    | facNoErr | facErr =>
+      simp only [errorsOk, hform, hsteps, isMade, hmade, beq_self_eq_true, Bool.true_or, Bool.and_true, if_true,
+        Bool.and_eq_true, beq_iff_eq] at herr
+      exact herr.1.2
+  simp only [onceOk, hsteps, Bool.and_eq_true, List.all_eq_true] at honce
+  obtain ⟨hc, hcalls⟩ := honce
+  have hnofail : fillFailed c = false := by
+    -- a creation step whose fillConf failed does not end in `made`
+    cases hform : inp.form with
+    | component => exact absurd hform ha.2
+    | facNoErr | facErr =>
+      simp only [errorsOk, hform, hsteps, Bool.and_eq_true] at herr
+      have h1 := herr.1.1.1
+      unfold stepErrOk at h1
+      rw [hmade] at h1
+      cases hff : fillFailed c with
+      | false => rfl
+      | true =>
+        exfalso
+        simp only [fillFailed, List.any_eq_true] at hff
+        obtain ⟨e, he, hbad⟩ := hff
+        cases e with
+        | fill i ad ok =>
+          simp only [Bool.not_eq_true'] at hbad
+          subst hbad
+          have hm : Err.fill i ∈ c.evs.filterMap evFail := by
+            simp only [List.mem_filterMap]
+            exact ⟨_, he, by simp [evFail]⟩
+          split at h1
+          · rename_i hnil; rw [hnil] at hm; simp at hm
+          · simp at h1
+          · simp at h1
+        | dflt => simp at hbad
+        | ctor _ _ _ => simp at hbad
+        | fact _ _ => simp at hbad
+  simp only [onceCreateOk, hnofail, Bool.false_eq_true, if_false, Bool.and_eq_true, beq_iff_eq] at hc
+  obtain ⟨⟨⟨_, c2⟩, c3⟩, c4⟩ := hc
+  have hper : ∀ s ∈ calls, s.evs.countP isDflt = 0 ∧ s.evs.countP isFill = 0 ∧ s.evs.countP isCtor = 0 ∧
+      s.evs.countP isFact = 1 := by
+    intro s hs
+    have := hcalls s hs
+    simp only [onceCallOk, Bool.and_eq_true, beq_iff_eq] at this
+    obtain ⟨l1, l2⟩ := this
+    match hev : s.evs, l1, l2 with
+    | [e], _, l2 =>
+      cases e <;> simp_all [isDflt, isFill, isCtor, isFact, List.countP_cons]
+  have hsum : ∀ (p : Ev → Bool) (n : Nat), (∀ s ∈ calls, s.evs.countP p = n) → total p calls = calls.length * n := by
+    intro p n
+    unfold total
+    generalize calls = l
+    intro hl
+    induction l with
+    | nil => simp
+    | cons a l ih =>
+      simp only [List.map_cons, List.sum_cons, List.length_cons, hl a (by simp)]
+      rw [ih (fun s hs => hl s (by simp [hs])), Nat.add_mul]; omega
+  refine ⟨hlen, c2, c3, c4, ?_, ?_, ?_, ?_⟩
+  · rw [hsum isDflt 0 (fun s hs => (hper s hs).1)]; simp
+  · rw [hsum isFill 0 (fun s hs => (hper s hs).2.1)]; simp
+  · rw [hsum isCtor 0 (fun s hs => (hper s hs).2.2.1)]; simp
+  · rw [hsum isFact 1 (fun s hs => (hper s hs).2.2.2), hlen]; simp
+
+/-- the whole Spec verdict the driver computes is `ok` on the model's own observation, for every input -/
+theorem C18_spec (inp : Input) (fields : List Nat) : judge inp (run inp) fields = "ok" := by
+  cases hrun : run inp with
+  | none =>
+    have := C18_register inp
+    rw [hrun] at this
+    simp only [judge]
+    rw [← this]; simp
+  | some obs =>
+    have hreg : registerOk inp.sh = true := by
+      have := C18_register inp
+      rw [hrun] at this
+      exact this.symm
+    simp only [judge, hreg, Bool.not_true, Bool.false_eq_true, if_false, C18_errors inp obs hrun,
+      C18_config_spec inp obs fields hrun]
+    by_cases hf : freshApplies inp = true
+    · by_cases ho : onceApplies inp = true
+      · simp [hf, ho, C18_fresh inp obs hrun hf, C18_once inp obs hrun ho]
+      · simp [hf, ho, C18_fresh inp obs hrun hf]
+    · by_cases ho : onceApplies inp = true
+      · simp [hf, ho, C18_once inp obs hrun ho]
+      · simp [hf, ho]
+
+/-! ### non-vacuity: concrete inputs that meet the hypotheses and exercise every branch of the statements -/
+
+/-- defaults 5/6/7 on fields 1..3, the user sets field 2 to 9 -/
+def exWorld (fillFault ctorFault factFault : Nat → Bool) : World :=
+  { dflt := [(1, 5), (2, 6), (3, 7)], user := [(2, 9)], hasFill := true, fillFault, ctorFault, factFault }
+
+def noFault : Nat → Bool := fun _ => false
+
+/-- `func(*Conf) (*comp, error)` + `func() *Conf`, requested as `func() Plugin`, called 3 times -/
+def exFresh : Input :=
+  { sh := { factory := false, cfg := .ptr, ctorErr := true, factErr := false, iface := false, dflt := .fresh },
+    form := .facNoErr, w := exWorld noFault noFault noFault, k := 3 }
+
+example : (run exFresh).isSome = true ∧ freshApplies exFresh = true ∧ exFresh.sh.factory = false := by decide
+/-- three products, three distinct configurations 0,1,2, each seeing 5/9/7 -/
+example : (run exFresh).map (fun o => (products o.steps).map fun p => (p.cell, p.seen.get 1, p.seen.get 2, p.seen.get 3)) =
+    some [(some 0, 5, 9, 7), (some 1, 5, 9, 7), (some 2, 5, 9, 7)] := by decide
+example : (run exFresh).map (fun o => total isFill (callsOf exFresh o)) = some 3 := by decide
+
+/-- `func(*Conf) (func() (Plugin, error), error)` + default config, requested as `func() (Plugin, error)`, 3 calls -/
+def exOnce : Input :=
+  { sh := { factory := true, cfg := .ptr, ctorErr := true, factErr := true, iface := true, dflt := .fresh },
+    form := .facErr, w := exWorld noFault noFault noFault, k := 3 }
+
+example : (run exOnce).isSome = true ∧ onceApplies exOnce = true := by decide
+example : (run exOnce).map (fun o => o.steps.map fun s => (s.evs.countP isFill, s.evs.countP isCtor, s.evs.countP isFact)) =
+    some [(1, 1, 0), (0, 0, 1), (0, 0, 1), (0, 0, 1)] := by decide
+/-- the three products of a factory constructor given a `*Conf` DO share that one configuration (that is the
+registered factory's business): the last writer's serial number is what all of them read -/
+example : (run exOnce).map (·.views) = some [(0, 2), (1, 2), (2, 2)] := by decide
+
+/-- the second constructor call fails: a panic carrying `ctor 1` for `func() Plugin`, the error result for
+`func() (Plugin, error)`; the calls before and after succeed -/
+def exErr (form : Form) : Input :=
+  { exFresh with form := form, w := exWorld noFault (fun i => i == 1) noFault }
+
+example : (run (exErr .facNoErr)).map (fun o => o.steps.map fun s => match s.res with
+      | .made => "made" | .ok _ => "ok" | .err _ => "err" | .panic _ => "panic") =
+    some ["made", "ok", "panic", "ok"] := by decide
+example : (run (exErr .facErr)).map (fun o => o.steps.map (·.res) |>.filter (fun r => r == .err (.ctor 1))) =
+    some [.err (.ctor 1)] := by decide
+/-- a fillConf error at creation of a factory from a factory constructor is `NewFactory`'s error result -/
+example : (run { exOnce with w := exWorld (fun _ => true) noFault noFault }).map (fun o => o.steps.map (·.res)) =
+    some [.err (.fill 0)] := by decide
+
+/-- why `freshApplies` excludes a default-config function returning one shared pointer: there the products of a
+component-constructor factory all hold that pointer (identity 0) -/
+example : (run { exFresh with sh := { exFresh.sh with dflt := .shared } }).map
+    (fun o => (products o.steps).map (·.cell)) = some [some 0, some 0, some 0] := by decide
 
 end Pandora.Props.C18
